@@ -158,6 +158,14 @@ def serial_case(d, depth, planetary, fmt, mode, part):
                 toast.sample_layer_filtered(pio, lambda t: True, SAMPLERS[sampler], depth, coordsys=cs, parallel=1)
                 for p in allpos:
                     expected[p] = expected_tile(*p, planetary, sampler)
+            elif mode in ("builder", "builder-filtered"):
+                # the Builder entry point (what tile-allsky and the FITS tiler use), with and without a filter
+                from toasty.builder import Builder
+
+                kw = {"tile_filter": (lambda t: True)} if mode == "builder-filtered" else {}
+                Builder(pio).toast_base(SAMPLERS[sampler], depth, is_planet=planetary, parallel=1, **kw)
+                for p in allpos:
+                    expected[p] = expected_tile(*p, planetary, sampler)
             elif mode == "clobber-cap":
                 # a sampler that is undefined over whole tiles, onto a fresh directory: those tiles are not stored
                 toast.sample_layer(pio, SAMPLERS["cap"], depth, coordsys=cs, parallel=1)
@@ -413,7 +421,9 @@ def run(tier, seed):
     for depth in depths:
         for planetary in (False, True):
             for fmt in ("png", "npy", "fits"):
-                for mode in ("clobber", "update-all", "update-partial", "clobber-over-existing", "clobber-cap", "cli-allsky", "update-partial-rgba"):
+                for mode in ("clobber", "update-all", "update-partial", "clobber-over-existing", "clobber-cap", "cli-allsky", "update-partial-rgba", "builder", "builder-filtered"):
+                    if mode.startswith("builder") and (depth == 3 or (depth == 0 and mode == "builder-filtered")):
+                        continue
                     if mode == "clobber-cap" and (fmt == "png" or depth < 2):
                         continue
                     if mode == "cli-allsky" and (fmt != "png" or depth not in (1, 2)):
